@@ -30,6 +30,10 @@ MUTATORS = ["reorder", "reorder", "reorder", "subr", "merger", "cch", "dga"]
 # ----------------------------------------------------------------------
 # direct definitions from a parent array
 # ----------------------------------------------------------------------
+class CyclicParents(Exception):
+    pass
+
+
 def direct(ps):
     V = len(ps)
     kids = [[u for u in range(V) if ps[u] == v and u != v] for v in range(V)]
@@ -39,7 +43,11 @@ def direct(ps):
         while ps[w] != w:
             w = ps[w]
             out.append(w)
+            if len(out) > V:
+                raise CyclicParents(f"the parents {ps} contain a cycle through {w}: the object is not a forest")
         return out
+    if any(not (0 <= x < V) for x in ps):
+        raise CyclicParents(f"the parents {ps} have entries outside 0..{V - 1}: the object is not a forest")
     ancs = [anc(v) for v in range(V)]
     desc = [sorted(u for u in range(V) if v in ancs[u]) for v in range(V)]
     hts = [0] * V
@@ -171,9 +179,12 @@ def sweep(F, trail):
     """every query on a deep copy of the object must describe F.parents as they are now"""
     ps = [int(x) for x in F.parents]
     V = len(ps)
-    D = direct(ps)
-    G = copy.deepcopy(F)
     where = f"after {' -> '.join(trail) or 'construction'} (parents now {ps})"
+    try:
+        D = direct(ps)
+    except CyclicParents as e:
+        return f"{where}: {e}"
+    G = copy.deepcopy(F)
     try:
         if int(G.V) != V:
             return f"{where}: V={G.V} but parents has {V} entries"
@@ -240,7 +251,11 @@ def run_history(case):
         name = step[0]
         ps = [int(x) for x in F.parents]
         V = len(ps)
-        D = direct(ps)
+        try:
+            D = direct(ps)
+        except CyclicParents as e:
+            fail(str(e))
+            break
         leaves = [v for v in range(V) if D["leaf"][v]]
         valid_args = True
         want = None          # ("eq", value) checked against the returned value
